@@ -1039,6 +1039,71 @@ def part_large_records(c, bindir_san, hx):
 
 
 # ---------------------------------------------------------------------------
+# inputs with a known verdict: negative WARC lengths must be diagnosed as such; `cache cat` is the identity
+
+def part_verdicts(c, bindir_san, hx):
+    rng = c.rng
+    quick = c.tier == "quick"
+    jobs = []      # (tool, name, stdin, expected stdout or None, bytes that stderr must contain or None)
+    wp = tr.Tool("warc_parallel", ["-j", "1", "cat"], b"", kind="wrapper", label="warc_parallel")
+    good = b"WARC/1.0\r\nContent-Length: 2\r\n\r\nok\r\n\r\n"
+    # Content-Length: -N.  N small, and N around the size of the header block (a length that wraps modulo 2^64 then makes the
+    # record end inside or just behind its own header, so that the CRLF CRLF test looks in front of the buffer)
+    for extra in ([b"", b"WARC-Type: response\r\n"] if quick else [b"", b"WARC-Type: response\r\n", b"X: y\r\n" * 40, b"WARC-Target-URI: http://example.org/" + b"a" * 900 + b"\r\n"]):
+        for after_cl in (False, True):
+            def rec(n, body=b""):
+                h = b"WARC/1.0\r\n" + (b"" if after_cl else extra) + b"Content-Length: " + str(n).encode() + b"\r\n" + (extra if after_cl else b"") + b"\r\n"
+                return h, h + body
+            mags = set(range(1, 9))
+            for digits in (1, 2, 3, 4, 5):
+                hdr = len(rec(-(10 ** (digits - 1)))[0])          # header block size when N has that many digits
+                mags |= {m for m in range(hdr - 2, hdr + 7) if m > 0 and len(str(m)) == digits}
+            for n in sorted(mags):
+                for tail_name, tail in (("eof", b""), ("crlf", b"\r\n\r\n"), ("record", good)):
+                    if quick and tail_name == "crlf" and n > 8:
+                        continue
+                    h, data = rec(-n)
+                    jobs.append((wp, "warc-negative-length-%d-hdr%d-%s" % (n, len(h), tail_name), data + tail, None, b"Content-Length"))
+    # cache around `cat` with the whole line as key reproduces its input; empty lines (an empty answer is a valid cached value),
+    # first, recurring, only
+    cache = tr.Tool("cache", ["cat"], b"", kind="wrapper", label="cache")
+    texts = [b"\nA\n\nB\n\nC\n", b"\n", b"\n\n\n", b"\nA\n", b"A\n\n\nA\n\n", b"\n" * 50 + b"x\n" + b"\n" * 50, b"\r\n\n\r\n\n", b" \n\n \n\n"]
+    for i in range(4 if quick else 60):
+        alphabet = [b"", b"", b"a", b"b", b" ", b"\t", b"a\tb"]
+        texts.append(b"".join(rng.choice(alphabet) + b"\n" for _ in range(rng.randrange(1, 40))))
+    for i, text in enumerate(texts):
+        jobs.append((cache, "cache-empty-lines-%d" % i, text, text, None))
+        # key = first field: a line gets the answer of the first line with the same first field
+        first = {}
+        exp = b"".join(first.setdefault(l.split(b"\t")[0], l) + b"\n" for l in text.split(b"\n")[:-1])
+        jobs.append((tr.Tool("cache", ["-k", "1", "cat"], b"", kind="wrapper", label="cache -k 1"), "cache-empty-keys-%d" % i, text, exp, None))
+
+    def work(j):
+        t, name, data, expect, diag = j
+        with tr.Scratch(SCRATCH, t) as w:
+            rc, out, err = tr.run(t.argv(bindir_san, w, hx), data, timeout=20, env=dict(os.environ, **SAN_ENV), cwd=w)
+            return j, rc, out, err
+
+    with ThreadPoolExecutor(WORKERS) as ex:
+        results = list(ex.map(work, jobs))
+    for (t, name, data, expect, diag), rc, out, err in results:
+        kind, detail = classify(rc, err)
+        c.count(("verdict", t.label, name), bucket="verdict/%s/%s" % (t.name, kind))
+        rep = {"tool": t.label, "executable": t.name, "argv": t.argv("$BIN", "$W", "$HX"), "stream": name, "stdin_hex": hexs(data), "status": rc,
+               "stdout_hex": hexs(out[:400]), "report": detail, "stderr_tail": err.decode("utf-8", "replace")[-400:],
+               "how": "build flavour '%s'; %s < stdin" % (SAN, " ".join(t.argv("$BIN", "$W", "$HX")))}
+        if kind != "ok":
+            c.violation("%s: %s on '%s': %s" % (kind, t.name, name, detail), rep)
+        elif diag is not None and (rc == 0 or diag not in err):
+            rep["report"] = "negative Content-Length not diagnosed"
+            c.violation("malformed-input-not-diagnosed: %s on '%s' (%r...): status %s, stderr %r -- a negative Content-Length must stop the tool with a message naming it" % (
+                t.name, name, data[:60], rc, err.decode("utf-8", "replace")[-120:]), rep)
+        elif expect is not None and (rc != 0 or out != expect):
+            rep["report"] = "output is not what the wrapped identity child defines"
+            c.violation("garbage-output: %s on %r: status %s, stdout %r, expected %r" % (" ".join([t.name] + t.args), data[:60], rc, out[:60], expect[:60]), rep)
+
+
+# ---------------------------------------------------------------------------
 # substitute: structured lines with 4..8 tab-separated fields; every output line may only contain fields of its own
 # input line and values remembered from earlier lines with the same key
 
@@ -1133,6 +1198,7 @@ def main(argv):
                      ("leaf parsers at a page end", lambda: part_leaf(c)),
                      ("file backings", lambda: part_backings(c, os.path.dirname(repo_bin("x", SAN)), os.path.dirname(hx_bin("x")))),
                      ("large records", lambda: part_large_records(c, os.path.dirname(repo_bin("x", SAN)), os.path.dirname(hx_bin("x")))),
+                     ("known verdicts", lambda: part_verdicts(c, os.path.dirname(repo_bin("x", SAN)), os.path.dirname(hx_bin("x")))),
                      ("substitute structured", lambda: part_substitute(c, os.path.dirname(repo_bin("x", SAN)), os.path.dirname(hx_bin("x")))),
                      ("sanitizer sampling", lambda: part_tools(c, os.path.dirname(repo_bin("x", SAN)), os.path.dirname(hx_bin("x")), os.path.dirname(repo_bin("x")))),
                      ("sanitizer under faults", lambda: part_faults_sanitized(c, os.path.dirname(repo_bin("x", SAN)), os.path.dirname(hx_bin("x")))),
